@@ -6,6 +6,24 @@ import json, os, re, sys, glob
 V = os.path.dirname(os.path.dirname(os.path.abspath(__file__)))
 props = {json.loads(l)['id']: json.loads(l) for l in open(V + '/properties.jsonl')}
 tabs = {os.path.basename(f)[:-5]: json.load(open(f)) for f in glob.glob(V + '/units/C*.json')}
+sys.path.insert(0, V + '/tools')
+import importlib.util
+spec = importlib.util.spec_from_file_location('cov', V + '/tools/coverage.py')
+# function -> defining files (regex scan of /repo/src, as in coverage.py)
+FN = re.compile(r'^(?:static\s+)?(?:inline\s+)?(?:ABTU_\w+\s+)*[A-Za-z_][\w \*]*?\b(\w+)\s*\([^;{]*\)\s*\{', re.M | re.S)
+fdef = {}
+for root, _, files in os.walk('/repo/src'):
+    for fn in files:
+        if fn.endswith(('.c', '.h')):
+            path = os.path.join(root, fn); txt = re.sub(r'/\*.*?\*/', '', open(path, errors='replace').read(), flags=re.S)
+            for m in FN.finditer(txt): fdef.setdefault(m.group(1), set()).add('src/' + os.path.relpath(path, '/repo/src'))
+umain = {}
+for P_, t in tabs.items():
+    for u in t['units']:
+        names = set()
+        for x in u.get('enforce', []) + u.get('verified_inline', []):
+            for w in re.findall(r'[A-Za-z_]\w+', x): names.add(w)
+        umain[u['name']] = set().union(*[fdef.get(n, set()) for n in names]) if names else set()
 ufiles, usecs, uhome = {}, {}, {}
 for f in glob.glob(V + '/evidence/C*.json'):
     ev = json.load(open(f)); P = ev['property_id']
@@ -25,7 +43,7 @@ for P in sorted(props):
     anchors = set(props[P]['anchors']['files']); have = included(P); cand = []
     for u, fs in ufiles.items():
         if u in have or uhome[u] == P: continue
-        hit = fs & anchors
+        hit = umain.get(u, set()) & anchors
         # headers pulled in everywhere carry obligations in many units: require a non-trivial overlap
         if hit: cand.append((u, uhome[u], round(usecs[u]), sorted(hit)))
     if cand:
